@@ -90,7 +90,9 @@ def gen_lens(rng, npop, glob):
     return kw, lt, data
 
 
-def gen_case(rng):
+def gen_case(rng, mixed=False):
+    """mixed: a sample in which a kinematic lens whose scaling list has NO slope precedes lenses that carry their own slope
+    (the running slope index must advance for slope lenses only)"""
     npop = rng.choice([0, 0, 1, 2, 3])
     glob = dict((k, v) for k, v in WL_GLOBAL.items() if rng.random() < 0.7)
     glob["anisotropy_model"] = "OM"
@@ -101,12 +103,23 @@ def gen_case(rng):
             glob[k] = v
     if npop:
         glob["los_distributions"] = ["GAUSSIAN"] * npop
-    gglobal = rng.random() < 0.2
+    gglobal = (not mixed) and rng.random() < 0.2
     if gglobal:
         glob["gamma_pl_global_sampling"] = True
         glob["gamma_pl_global_dist"] = "NONE"
     n = rng.choice([0, 1, 2, 3, 4, 5, 7])
     lenses = [gen_lens(rng, npop, glob) for _ in range(n)]
+    if mixed:
+        def draw(pred):
+            for _ in range(500):
+                l = gen_lens(rng, npop, glob)
+                if pred(l[0].get("kin_scaling_param_list")):
+                    return l
+            raise RuntimeError("generator")
+        head = [draw(lambda sl: sl == ["a_ani"]), draw(lambda sl: bool(sl) and "gamma_pl" in sl)]
+        if rng.random() < 0.5:
+            head.append(draw(lambda sl: bool(sl) and "gamma_pl" in sl))
+        lenses = head + lenses[:2]
     nslope = sum(1 for kw, _, _ in lenses if "gamma_pl" in kw.get("kin_scaling_param_list", [])) if not gglobal else 0
     hyper = dict(kwargs_lens=dict(lambda_mst=rng.uniform(0.9, 1.1), lambda_ifu=rng.uniform(0.9, 1.1), gamma_ppn=rng.uniform(0.8, 1.2),
                                   lambda_mst_sigma=0.0, lambda_ifu_sigma=0.0, alpha_lambda=rng.uniform(-0.1, 0.1)),
@@ -334,7 +347,7 @@ def run(ctx, res):
     lines, meta = [], []
     from hierarc.Likelihood.lens_sample_likelihood import LensSampleLikelihood
     for t in range(n):
-        case = gen_case(rng)
+        case = gen_case(rng, mixed=(t in (1, 2, 3)))
         try:
             fails, sample, terms, total = oracle(case, rng)
         except Exception as e:  # noqa
